@@ -12,13 +12,24 @@ Entry arguments (never changed by the transformations because the entry has role
     n, xi0, xr0 (in); yi0, yr0 (inout); zi0(n) int in; zi1(n) int inout; zr2(n) real inout; zr3(lb:lb+5) real inout; zr4(3,n) real inout
 
 Preconditions honoured by construction (documented by the transformations / shown by their tests):
-  dt     no INTENT(OUT) derived-type dummies with allocatable components; no aliasing between expanded arguments;
-         type-bound CALLS are resolved first (mode 'tb+dt'); in mode 'dt' bound procedures are only called directly
+  dt     no INTENT(OUT) derived-type dummies with allocatable components; no aliasing between expanded arguments
   seq    element actual -> explicit-shape dummy that fits into the remainder of the actual's FIRST dimension (the documented
-         rewrite a(i,j) -> a(i:m,j)); rank-2 dummies only from the first element of a column with full leading extent
+         rewrite a(i,j) -> a(i:m,j)); rank-2 dummies only from the first element of a column with full leading extent.
+         ('seq_cross_column' lets the dummy run into the next column: legal Fortran; the rewritten actual a(i:3,j) is then
+         shorter than the dummy, which gfortran neither diagnoses nor copies, so the OUTPUT is unchanged: an ordinary feature)
   shape  assumed-shape dummies receive whole arrays or full-column sections; one calling context per callee
   dup    duplicated actuals only for INTENT(IN) dummies; every call of a callee duplicates the same positions
-Triggers of listed known findings are features as well (off unless the check switches them on).
+Triggers of listed known findings are features as well: build() emits the triggering construct ONLY when the trigger
+feature is on (the check switches a trigger on only while its finding is NOT listed as known):
+  lbv           array component with lower bound 0 (REAL :: v(0:3))
+  whole_member  layer passes t%in / t%arr(k) as a whole to a callee that is not expanded while it also references members of
+                that member (t%in%x); also: tb+dt without all_derived_types and a bound call on t%in inside layer (becomes
+                scale_inner(t%in, f)). Without the trigger leaf is fed from a local copy that is filled member by member
+  whole_object  tb+dt with a type-bound FUNCTION reference inside layer: becomes get_outer(t, k) - the scheduler does not discover
+                inline calls of bound functions, get_outer is not expanded and layer uses t as a whole and by member
+  dt_tbcall     mode dt while a type-bound CALL is still present in the kernel
+  kw_anycase    mode dt, keyword call of layer with identifiers NOT written in lower case (layout idcase upper/mixed)
+  shape_lb      assumed-shape dummy associated with an actual whose declared lower bound is not 1
 """
 from hypothesis import strategies as st
 
@@ -31,16 +42,17 @@ FEATURES = {
     'dt': ['nested', 'arrcomp', 'alloc', 'aos', 'leaf', 'leaf_outer', 'kwcall', 'two_calls', 'func', 'othermod', 'bound_direct'],
     'tb': ['nested', 'arrcomp', 'alloc', 'aos', 'tb_sub', 'tb_func', 'tb_nested', 'tb_aos', 'tb_in_layer', 'othermod'],
     'tb+dt': ['nested', 'arrcomp', 'alloc', 'aos', 'leaf', 'tb_sub', 'tb_func', 'tb_nested', 'tb_in_layer', 'othermod'],
-    'seq': ['seq_2d_actual', 'seq_lb', 'seq_dummy_lb', 'seq_rank2', 'seq_comp', 'seq_nested_call', 'seq_var_index', 'othermod'],
+    'seq': ['seq_2d_actual', 'seq_lb', 'seq_dummy_lb', 'seq_rank2', 'seq_comp', 'seq_nested_call', 'seq_var_index', 'seq_cross_column',
+            'othermod'],
     'shape': ['shape_2d', 'shape_section', 'shape_chain', 'shape_literal_dims', 'shape_inquiry', 'shape_two_callees', 'othermod'],
     'dup': ['dup_array', 'dup_scalar', 'dup_section', 'dup_literal', 'dup_triple', 'dup_kw', 'dup_chain', 'dup_two_calls', 'othermod'],
 }
 # features that trigger listed known findings (generated only when the check switches them on)
 TRIGGERS = {
-    'dt': ['lbv', 'whole_member', 'dt_tbcall'],
-    'tb+dt': ['lbv'],
+    'dt': ['lbv', 'whole_member', 'dt_tbcall', 'kw_anycase'],
+    'tb+dt': ['lbv', 'whole_member', 'whole_object'],
     'tb': [],
-    'seq': ['seq_cross_column'],
+    'seq': [],
     'shape': ['shape_lb'],
     'dup': [],
 }
@@ -215,6 +227,31 @@ def collect_object(name, feat, lbv):
     return out
 
 
+def touch_members(name, feat, lbv, acc):
+    """deterministic statements that read and write every member of a type(outer_t) dummy: the expansion always has work to
+    do, and the first/last elements of the array members make shifted bounds observable"""
+    t = lambda *p: ['d', [[name, None]] + [list(x) for x in p]]
+    inc = lambda lhs, rhs: ['assign', lhs, ['b', '+', lhs, rhs]]
+    out = [['assign', t(['m', None]), ['f', 'modulo', [['b', '+', t(['m', None]), lit(1)], ['i', 97]], {}]],
+           inc(var(acc), t(['s', None]))]
+    if feat.get('alloc'):
+        out.append(inc(t(['a', [lit(1)]]), ['r', '0.5']))
+        out.append(inc(t(['a', [var('n')]]), ['r', '0.25']))
+
+    def inner(prefix):
+        out.append(inc(t(*prefix, ['x', None]), ['r', '0.5']))
+        out.append(['assign', t(*prefix, ['k', None]), ['f', 'modulo', [['b', '+', t(*prefix, ['k', None]), lit(2)], ['i', 97]], {}]])
+        if feat.get('arrcomp'):
+            out.append(inc(t(*prefix, ['v', [lit(lbv)]]), ['r', '0.25']))
+            out.append(inc(t(*prefix, ['v', [lit(lbv + 3)]]), t(*prefix, ['x', None])))
+    if feat.get('nested'):
+        inner([['in', None]])
+    if feat.get('aos'):
+        for k in (1, 2):
+            inner([['arr', [lit(k)]]])
+    return out
+
+
 def member_body(g, env, nst):
     return B.gen_body(g, env, 0, nst)
 
@@ -325,29 +362,41 @@ def build_dt(case):
     locals_for(env, dd, pro, 'l', 1, 1)
     body = pro + member_body(g.fork(311), env, 3)
     if feat.get('tb_in_layer'):
-        body += tb_calls(g.fork(331), feat, 't', 'c')
+        lf = dict(feat)
+        if mode == 'tb+dt':
+            # see the module docstring: these two constructs are the triggers 'whole_object' / 'whole_member'
+            if not feat.get('whole_object'):
+                lf['tb_func'] = False
+            if not (opts.get('all_derived_types') or feat.get('whole_member')):
+                lf['tb_nested'] = False
+        body += tb_calls(g.fork(331), lf, 't', 'c')
     if feat.get('leaf'):
         if feat.get('leaf_outer'):
             body.append(['call', 'leaf', [var('n'), var('t'), var('c')], {}])
-        elif feat.get('whole_member') and feat.get('nested'):
-            body.append(['call', 'leaf', [var('n'), ['d', [['t', None], ['in', None]]], var('c')], {}])
-        elif feat.get('aos'):
-            body.append(['call', 'leaf', [var('n'), ['d', [['t', None], ['arr', [lit(g.i(1, 2))]]]], var('c')], {}])
-        elif feat.get('nested'):
-            # passing t%in as a whole while the same routine also uses t%in%x is the listed known finding 'whole_member';
-            # without it, leaf is fed from a local copy
-            dd.append(decl('lcopy', 'type:inner_t'))
-            body.append(['assign', var('lcopy'), ['d', [['t', None], ['in', None]]]])
-            body.append(['call', 'leaf', [var('n'), var('lcopy'), var('c')], {}])
-            body.append(['assign', ['d', [['t', None], ['in', None]]], var('lcopy')])
         else:
-            dd.append(decl('lcopy', 'type:inner_t'))
-            body.append(['assign', ['d', [['lcopy', None], ['x', None]]], var('c')])
-            body.append(['assign', ['d', [['lcopy', None], ['k', None]]], lit(2)])
-            if feat.get('arrcomp'):
-                body.append(['assign', ['d', [['lcopy', None], ['v', None]]], ['r', '0.25']])
-            body.append(['call', 'leaf', [var('n'), var('lcopy'), var('c')], {}])
+            src = None
+            if feat.get('nested'):
+                src = [['in', None]]
+            elif feat.get('aos'):
+                src = [['arr', [lit(g.i(1, 2))]]]
+            if src is not None and feat.get('whole_member'):
+                body.append(['call', 'leaf', [var('n'), ['d', [['t', None]] + src], var('c')], {}])
+            else:
+                # leaf works on a local object that is filled (and copied back) member by member
+                dd.append(decl('lcopy', 'type:inner_t'))
+                members = ['x', 'k'] + (['v'] if feat.get('arrcomp') else [])
+                for m in members:
+                    if src is not None:
+                        rhs = ['d', [['t', None]] + src + [[m, None]]]
+                    else:
+                        rhs = {'x': var('c'), 'k': lit(2), 'v': ['r', '0.25']}[m]
+                    body.append(['assign', ['d', [['lcopy', None], [m, None]]], rhs])
+                body.append(['call', 'leaf', [var('n'), var('lcopy'), var('c')], {}])
+                if src is not None:
+                    for m in members:
+                        body.append(['assign', ['d', [['t', None]] + src + [[m, None]]], ['d', [['lcopy', None], [m, None]]]])
     body += member_body(g.fork(351), env, 2)
+    body += touch_members('t', feat, lbv, 'c')
     callees.append(routine('layer', ['n', 't', 'b', 'c'], dd, body))
     # ---- function callee
     if feat.get('func'):
@@ -405,8 +454,11 @@ def assemble(case, g, ent, tmod, kern, callees, uses_t, lb3):
     files.append({'name': 'kmod.f90', 'units': [['module', kmod]]})
     gi = g.fork(901)
     inputs = B.gen_inputs(gi, ent, 4)
+    idcase = g.fork(921).pick(['lower', 'lower', 'upper', 'mixed'])
+    if case['mode'] == 'dt' and feat.get('kwcall') and not feat.get('kw_anycase'):
+        idcase = 'lower'
     L = {'stream': [g.fork(911).i(0, 999) for _ in range(6)], 'indent': 2, 'cont': 0,
-         'idcase': g.fork(921).pick(['lower', 'lower', 'upper', 'mixed']), 'kwcase': g.fork(923).pick(['lower', 'upper'])}
+         'idcase': idcase, 'kwcase': g.fork(923).pick(['lower', 'upper'])}
     return {'files': files, 'entry': {'module': 'kmod', 'name': 'kernel', 'args': ent}, 'inputs': inputs, 'layout': L}
 
 
@@ -459,7 +511,7 @@ def build_seq(case):
         j = g.i(1, 3)
         mm = g.i(2, 3 - i + 1) if 3 - i + 1 >= 2 else 2
         if feat.get('seq_cross_column'):
-            mm = 3 - i + 1 + g.i(1, 2)       # runs into the next column (legal Fortran; the rewrite truncates the actual)
+            mm = 3 - i + 1 + g.i(1, 2)       # runs into the next column (legal Fortran; the rewritten actual is shorter)
             j = g.i(1, 2)
         calls.append(['call', 'sq', [elem('zr4', lit(i), lit(j)), lit(mm)], {}])
         if feat.get('seq_var_index'):
@@ -522,6 +574,10 @@ def build_shape(case):
         r0 = ranks[0]
         last = ['d', [[x0, [['f', 'ubound', [var(x0), lit(k + 1)], {}] for k in range(r0)]]]]
         body.append(['assign', last, ['b', '+', last, ['r', '0.25']]])
+        for k, r in enumerate(ranks):
+            # element (1,..) of every dummy by literal index: sensitive to a changed lower bound
+            e1 = ['d', [[f'x{k}', [lit(1)] * r]]]
+            body.append(['assign', e1, ['b', '+', e1, ['r', B.DYADIC[k % len(B.DYADIC)]]]])
         if feat.get('shape_inquiry'):
             body.append(['assign', ['d', [[x0, [lit(1)] * r0]]],
                          ['b', '+', ['d', [[x0, [lit(1)] * r0]]],
@@ -681,9 +737,8 @@ def cases(draw, modes=None, triggers=None):
     avoided = []
     for t in TRIGGERS[mode]:
         want = draw(st.integers(0, 3)) == 0
-        if want and (triggers or {}).get(t):
-            feat[t] = True
-        elif want:
+        feat[t] = bool(want and (triggers or {}).get(t))
+        if want and not feat[t]:
             avoided.append(t)
     opts = {k: draw(st.sampled_from(v)) for k, v in OPTS[mode].items()}
     stream = draw(st.lists(st.integers(0, 999), min_size=8, max_size=40))
